@@ -157,8 +157,120 @@ def fields_at(pid, op):
 
 def op_relevant(pid, op):
     if pid in REL_OPS:
-        return op in REL_OPS[pid] or op == "end"
+        # the closing line (final fate of every element, blocks released) is the business of the ownership
+        # and allocator properties, not of the protocol / argument-checking / comparison properties
+        return op in REL_OPS[pid]
     return op not in IRREL_OPS.get(pid, ())
+
+# The closing line of a history reports the final fate of EVERY element ever created.  For a property with a
+# premise (C04 a panic, C05 a forget, C12 a clone, C14 a raw round trip, C17 an ill-behaved callback) a
+# difference there counts only if it concerns an element that was within reach of one of the property's
+# premise operations: listed in a vector or iterator just before or after that operation, or named in its
+# element events.  (Other differences are the business of C01 / C02, whose checks have no premise.)
+def _premise_line(pid, line, toks, p):
+    import implside
+    if pid == "C04":
+        return implside.user_panic_line(line, toks, p)
+    if pid == "C05":
+        return toks[0] == "forget"
+    if pid == "C12":
+        return toks[0] in ("clone", "cloneit")
+    if pid == "C14":
+        return toks[0] == "rawrt"
+    if pid == "C17":
+        return toks[0] in implside.PRED_OPS or any(implside.ILL_SCRIPT.match(x) for x in toks[1:])
+    return True
+END_PREMISE = {"C04", "C05", "C12", "C14", "C17"}
+
+def _ids_of(p):
+    ids = set()
+    for grp in re.findall(r"\[([\d,]*)\]", p["state"] or ""):
+        ids |= {int(x) for x in grp.split(",") if x}
+    ids |= {int(x) for x in re.findall(r"\d+", p["elems"] or "")}
+    return ids
+
+# ---- the objects a premise property speaks about -------------------------------------------------------
+# C04 / C05 / C12 / C14 / C17 are statements about the vectors (and iterators) that went through one of
+# their premise operations, and about whatever those objects were later merged into or split from.  A
+# divergence at an ordinary operation counts against such a property only if it concerns one of them: the
+# operation's own object is in the family, or the state of a family vector differs.
+ITER_TARGET = {"next", "nextb", "nth", "nthb", "count", "last", "hint", "asslice", "dropit", "forget"}
+ITER_CREATE = {"drain", "splice", "dfilter", "intoiter"}
+TWO_VEC = {"clone", "append", "splitoff", "drainvec", "cmp"}
+
+def _ints(toks):
+    out = []
+    for x in toks[1:3]:
+        out.append(int(x) if x.isdigit() else None)
+    while len(out) < 2:
+        out.append(None)
+    return out
+
+def family(pid, line, parsed, k):
+    """(vector indices, iterator indices) in the family of pid after operations 0..k"""
+    body = [o.split() for o in line.split("::", 1)[1].split(";") if o.split()]
+    byk = {p["k"]: p for p in parsed}
+    fv, fi, made = set(), set(), {}           # made: iterator -> the vector it was taken from
+    for j, t in enumerate(body[:k + 1]):
+        op = t[0]
+        a0, a1 = _ints(t)
+        if op in ITER_CREATE and a1 is not None:
+            made[a1] = a0
+        prem = _premise_line(pid, line, t, byk.get(j))
+        if prem:
+            if op in ITER_TARGET or op == "cloneit":
+                fi |= {x for x in (a0, a1 if op == "cloneit" else None) if x is not None}
+                if a0 in made and made[a0] is not None:
+                    fv.add(made[a0])           # forgetting / stepping an iterator concerns its vector too
+            else:
+                fv |= {x for x in (a0, a1 if op in TWO_VEC else None) if x is not None}
+                if op in ITER_CREATE and a1 is not None:
+                    fi.add(a1)
+        # propagation: buffers and elements move between objects
+        if op in TWO_VEC and (a0 in fv or a1 in fv):
+            fv |= {x for x in (a0, a1) if x is not None}
+        if op in ITER_CREATE and a0 in fv and a1 is not None:
+            fi.add(a1)
+        if op == "cloneit" and a0 in fi and a1 is not None:
+            fi.add(a1)
+    return fv, fi
+
+def concerns_family(pid, line, parsed, mp, ip):
+    k = mp["k"]
+    body = [o.split() for o in line.split("::", 1)[1].split(";") if o.split()]
+    if k >= len(body):
+        return True
+    fv, fi = family(pid, line, parsed, k)
+    t = body[k]
+    a0, a1 = _ints(t)
+    op = t[0]
+    if op in ITER_TARGET or op == "cloneit":
+        if a0 in fi or (op == "cloneit" and a1 in fi):
+            return True
+    else:
+        if a0 in fv or (op in TWO_VEC and a1 in fv):
+            return True
+    mv = {m.group(1): m.group(0) for m in VEC.finditer(mp["state"] or "")}
+    iv = {m.group(1): m.group(0) for m in VEC.finditer(ip["state"] or "")}
+    return any(mv.get(str(v)) != iv.get(str(v)) for v in fv)
+
+def end_concerns(pid, line, parsed, mp, ip):
+    """does the difference on the closing line concern an element in reach of a premise operation of pid?"""
+    ml, il = (mp["ret"] or "").split(";")[0], (ip["ret"] or "").split(";")[0]
+    if ml == il:
+        return True                 # the difference is not in the fates: keep it
+    if len(ml) != len(il):
+        return True
+    diff = {j for j in range(len(ml)) if ml[j] != il[j]}
+    body = [o.split() for o in line.split("::", 1)[1].split(";") if o.split()]
+    byk = {p["k"]: p for p in parsed}
+    reach = set()
+    for k, toks in enumerate(body):
+        if _premise_line(pid, line, toks, byk.get(k)):
+            for kk in (k - 1, k):
+                if kk in byk:
+                    reach |= _ids_of(byk[kk])
+    return bool(diff & reach)
 
 def diff_fields(mp, ip):
     return {f for f in ALL if project("", mp, {f}) != project("", ip, {f})}
@@ -206,7 +318,9 @@ def compare_one(pid, line, mlines, res):
             df = diff_fields(mp, ip)
             import implside
             parsed = [x for x in (hrun.parse_line(y) for y in ilines[:i + 1]) if x]
-            if a != b and op_relevant(pid, mp["op"]) and implside.premise_ok(pid, line, parsed, mp["k"]):
+            if a != b and op_relevant(pid, mp["op"]) and implside.premise_ok(pid, line, parsed, mp["k"]) and \
+               (pid not in END_PREMISE or
+                (end_concerns(pid, line, parsed, mp, ip) if mp["op"] == "end" else concerns_family(pid, line, parsed, mp, ip))):
                 return n, {"at": mp["k"], "model": a, "impl": b, "why": "projection %s differs" % sorted(fields)}
             # the traces part ways here, in fields or at an operation this property does not speak about
             return n, {"elsewhere": True, "at": mp["k"], "op": mp["op"], "fields": sorted(df)}
